@@ -51,6 +51,7 @@ conf() {
     C03) PKG=c03;;
     C04) PKG=c04;;
     C05) PKG=c05;;
+    C06) PKG=c06;;
     C07) PKG=c07;;
     C08) PKG=c08;;
     C11) PKG=c11;;
@@ -60,7 +61,7 @@ conf() {
   QT="${QT}"; return 0
 }
 
-ALL_IDS="C01 C02 C03 C04 C05 C07 C08 C11 C14"
+ALL_IDS="C01 C02 C03 C04 C05 C06 C07 C08 C11 C14"
 
 build_one() { # id -> builds $BIN
   conf "$1" || { echo "check.sh: unknown property $1" >&2; return 2; }
